@@ -846,6 +846,18 @@ func (env *Env) evalCall(n *Call) (TV, error) {
 			return TV{t, ty}, nil
 		}
 		// no call encoded so far: for a module function the type comes from its signature
+		if fn := e.P.Funcs[full]; fn != nil && pfx == "arg:" {
+			for _, prm := range fn.Params {
+				if prm.Name() == flattenName(n.Args[1]) {
+					ty := prm.Type()
+					e.famSort["ghost:"+gk] = e.S.sortOf(ty)
+					e.ghostTy[gk] = ty
+					t := e.declare("ghost:"+gk, e.S.sortOf(ty))
+					e.ghostEntry[gk] = t
+					return TV{t, ty}, nil
+				}
+			}
+		}
 		if fn := e.P.Funcs[full]; fn != nil && pfx != "arg:" {
 			if fc := e.P.Contracts.Funcs[full]; fc != nil {
 				res := fn.Signature.Results()
